@@ -10,9 +10,11 @@ TECHNIQUE = 'runtime monitoring: scope provider wrapper imposing a postponement 
 RULE = ('exhaustive: lists of 1..4 (quick) / 1..6 (thorough) references x every schedule assigning each reference 0..2 (quick) '
         '/ 0..3 (thorough, up to 5 refs) Postponed answers before it resolves x target-name patterns (all distinct / with '
         'repeats) x one or two list attributes per object and a second list object; then random schedules on lists of up '
-        'to 20 references and two-file models. distinct = (names, schedule); non-trivial = the provider log shows a '
+        'to 20 references; a third of the cases is repeated as a history of four loads through ONE metamodel (plain, '
+        'scheduled, mirrored schedule, scheduled) with the earlier models discarded and collected. distinct = (names, schedule); non-trivial = the provider log shows a '
         'resolution order different from the textual order')
-REQUIRED = {'lists_checked': 200, 'schedules_with_reordered_resolution': 20, 'postponed_answers': 100}
+REQUIRED = {'lists_checked': 200, 'schedules_with_reordered_resolution': 20, 'postponed_answers': 100,
+            'history_loads_one_metamodel': 200}
 
 GRAMMAR = '''
 Model: imports*=Import defs*=Def lists+=L;
@@ -47,33 +49,74 @@ def build(names_lists):
     return text, layout
 
 
-def load(ctx, text, schedule, rep, files=None):
-    """schedule: dict position -> number of Postponed answers. Returns (model, log) or (None, log)."""
-    from textx import metamodel_from_str, TextXError
+def make_mm(ctx):
+    """a metamodel whose provider follows the schedule currently stored in state['left']"""
+    from textx import metamodel_from_str
     from textx.scoping import Postponed
     from textx.scoping.providers import PlainName
     inner = PlainName()
-    left = dict(schedule)
-    log = []
+    state = {'left': {}, 'log': []}
 
     def provider(obj, attr, obj_ref):
         pos = obj_ref.position
-        if left.get(pos, 0) > 0:
-            left[pos] -= 1
-            log.append(('P', pos))
+        if state['left'].get(pos, 0) > 0:
+            state['left'][pos] -= 1
+            state['log'].append(('P', pos))
             ctx.count('postponed_answers')
             return Postponed()
-        log.append(('R', pos))
+        state['log'].append(('R', pos))
         return inner(obj, attr, obj_ref)
 
     mm = metamodel_from_str(GRAMMAR)
     mm.register_scope_providers({'*.*': provider})
+    return mm, state
+
+
+def load(ctx, text, schedule, rep, files=None, mm_state=None):
+    """schedule: dict position -> number of Postponed answers. Returns (model, log) or (None, log)."""
+    from textx import TextXError
+    mm, state = mm_state or make_mm(ctx)
+    state['left'] = dict(schedule)
+    state['log'] = log = []
     try:
         return mm.model_from_str(text), log
     except TextXError as e:
         ctx.violation(None, 'load failed under a schedule in which every reference eventually resolves: %s' % str(e)[:120],
                       {'text': text, 'schedule': {str(k): v for k, v in schedule.items()}}, rep)
         return None, log
+
+
+def lists_ok(ctx, m, names_lists, layout, schedule, text, log, rep, what=''):
+    for l, (refs, more) in zip(m.lists, names_lists):
+        for attr, exp in (('refs', refs), ('more', more)):
+            got = [getattr(x, 'name', repr(x)) for x in getattr(l, attr)]
+            ctx.count('lists_checked')
+            if got != list(exp):
+                ctx.violation(classify(got, exp), '%slist %s.%s written as %r resolved to %r (postponed answers per reference: %r)' % (
+                    what, l.name, attr, list(exp), got, [schedule.get(p, 0) for p in (layout[m.lists.index(l)][0 if attr == 'refs' else 1])]),
+                    {'text': text, 'schedule': {str(k): v for k, v in schedule.items()}, 'log': log[:60]}, rep)
+                return False
+    return True
+
+
+def history(ctx, names_lists, layout, text, schedule, rep):
+    """the same metamodel used for several loads, earlier models discarded (their memory is reused): a plain load, the
+    scheduled load, a load with the schedule mirrored, the scheduled load again"""
+    import gc
+    mm_state = make_mm(ctx)
+    mx = max(schedule.values()) if schedule else 0
+    mirrored = {p: mx - v for p, v in schedule.items()}
+    if set(mirrored.values()) != set(range(mx + 1)):
+        mirrored = {}
+    for step, sch in enumerate([{}, schedule, mirrored, schedule]):
+        m, log = load(ctx, text, sch, rep, mm_state=mm_state)
+        if m is None:
+            return
+        ctx.count('history_loads_one_metamodel')
+        if not lists_ok(ctx, m, names_lists, layout, sch, text, log, rep, what='load %d with one metamodel: ' % (step + 1)):
+            return
+        del m
+        gc.collect()
 
 
 def check(ctx, names_lists, sched_lists, rep, sample=False):
@@ -105,15 +148,11 @@ def check(ctx, names_lists, sched_lists, rep, sample=False):
              if sample else None)
     if m is None:
         return
-    for l, (refs, more) in zip(m.lists, names_lists):
-        for attr, exp in (('refs', refs), ('more', more)):
-            got = [getattr(x, 'name', repr(x)) for x in getattr(l, attr)]
-            ctx.count('lists_checked')
-            if got != list(exp):
-                ctx.violation(classify(got, exp), 'list %s.%s written as %r resolved to %r (postponed answers per reference: %r)' % (
-                    l.name, attr, list(exp), got, [schedule[p] for p in (layout[m.lists.index(l)][0 if attr == 'refs' else 1])]),
-                    {'text': text, 'schedule': {str(k): v for k, v in schedule.items()}, 'log': log[:60]}, rep)
-                return
+    if not lists_ok(ctx, m, names_lists, layout, schedule, text, log, rep):
+        return
+    del m
+    if sum(len(a) + len(b) for a, b in names_lists) >= 2 and (len(text) + sum(schedule.values())) % 3 == 0:
+        history(ctx, names_lists, layout, text, schedule, rep)
 
 
 def classify(got, exp):
